@@ -471,6 +471,10 @@ from_feel_number_into!(u32);
 
 /// Converts a string in scientific notation into digits without exponent.
 fn scientific_to_plain(s: String) -> String {
+  // the sign stays in front of all digits
+  if let Some(unsigned) = s.strip_prefix('-') {
+    return format!("-{}", scientific_to_plain(unsigned.to_string()));
+  }
   if s.contains("E+") {
     let mut split1 = s.split("E+");
     let before_exponent = split1.next().unwrap();
@@ -482,6 +486,9 @@ fn scientific_to_plain(s: String) -> String {
       let after_decimal = split2.next().unwrap();
       let zeroes = (0..(exponent_digits - after_decimal.len())).map(|_| "0").collect::<String>();
       format!("{}{}{}", before_decimal, after_decimal, zeroes)
+    } else if before_exponent.chars().all(|ch| ch == '0') {
+      // zero with a positive exponent is just zero
+      "0".to_string()
     } else {
       let zeroes = (0..exponent_digits).map(|_| "0").collect::<String>();
       format!("{}{}", before_exponent, zeroes)
